@@ -96,6 +96,27 @@ theorem complete_in_paused_creates_no_task (c : Cfg) (w : World) (t : Nat) (s : 
 /-- the whole transaction of a pause request (with everything it propagates to) never touches a finished
     execution, keeps the links, and creates task rows in no finished execution -/
 theorem pause_request_is_good (c : Cfg) (w : World) (a : Nat) : Good w (step c w (.pause a)) :=
-  good_step c w (.pause a) rfl
+  good_step c w (.pause a)
+
+
+/-- "the workflow and its running sub-workflows are PAUSED" at full strength (every RUNNING execution below the
+    paused one) is FALSE of the code: pause_workflow only descends into sub-workflows that are not completed;
+    after stop(ERROR) of the middle execution (which does not touch its sub-workflows) the pause of the root
+    leaves the grandchild RUNNING.  Replayed on the real engine: corpus/C10/tree_pause_skips.json (known
+    finding). -/
+theorem pause_subtree_full_fails :
+    ¬ (∀ (c : Cfg) (evs : List Event) (a x : Nat),
+        below (run c evs) a (run c evs).execs.length x = true → stateOf (run c evs) x = some .RUNNING →
+        stateOf (run c evs) a = some .RUNNING →
+        stateOf (step c (run c evs) (.pause a)) x = some .PAUSED) := by
+  intro h
+  have := h chain3 (chain3Up ++ [.stop 1 .ERROR "m"]) 0 2 (by decide +kernel) (by decide +kernel) (by decide +kernel)
+  revert this
+  decide +kernel
+
+/-- the whole transaction of a resume request (with everything it propagates to) never touches a finished
+    execution either (needs the re-check of repo patch 20) -/
+theorem resume_request_is_good (c : Cfg) (w : World) (a : Nat) : Good w (step c w (.resume a)) :=
+  good_step c w (.resume a)
 
 end Mistral.Props.C10Tree
